@@ -1,5 +1,16 @@
 -- GENERATED from /repo sources by tools/extract.py on every check; do not edit
 namespace Elvis.Gen
-/-- reassembly/segment.rs `TLB` (timer lower bound, seconds) -/
-def TLB : Nat := 15
+def ipv4CurrentNetwork : Nat := 0
+def ipv4SubnetBroadcast : Nat := 4294967295
+def udpHeaderOctets : Nat := 8
+def udpDemuxStrip : Nat := 8
+def ipv4DemuxStripFactor : Nat := 4
+def ipv4ProtoUdp : Nat := 17
+def ipv4BaseWords : Nat := 5
+def broadcastMac : Nat := 281474976710655
+def mtuBits : Nat := 16
+def macBits : Nat := 64
+def mtuDefault : Nat := 2 ^ mtuBits - 1
+def txNsPerSec : Nat := 1000000000
+def txNsPerMs : Nat := 1000000
 end Elvis.Gen
